@@ -421,14 +421,24 @@ func subZlibVsReader() mon.Sub {
 			}
 			// the one-call helpers take the same peer-made message
 			c.Count(1)
+			// (the message lies in a receive buffer with other bytes behind it: a slice with spare capacity)
+			comp, intact := xport.Arena(comp)
 			if d, err := wsflate.DefaultHelper.Decompress(comp); err != nil || !bytes.Equal(d, msg) {
 				c.Fail("helpers/zlib-stream", fmt.Sprintf("Helper.Decompress does not recover a message compressed by zlib (err=%v, %d vs %d bytes)", err, len(d), len(msg)), det)
+				return
+			}
+			if w := intact(); w != "" {
+				c.Fail("helpers/input-buffer", "Helper.Decompress: "+w, det)
 				return
 			}
 			pf := ws.NewFrame(ws.OpBinary, true, comp)
 			pf.Header.Rsv = ws.Rsv(true, false, false)
 			if df, err := wsflate.DecompressFrame(pf); err != nil || !bytes.Equal(df.Payload, msg) {
 				c.Fail("frames/zlib-stream", fmt.Sprintf("DecompressFrame does not recover a frame compressed by zlib (err=%v)", err), det)
+				return
+			}
+			if w := intact(); w != "" {
+				c.Fail("frames/input-buffer", "DecompressFrame: "+w, det)
 				return
 			}
 			c.Classf("class=%d level=%d strat=%d final=%d", class, level, strategy, final)
@@ -460,9 +470,15 @@ func subFrames() mon.Sub {
 			f := ws.Frame{Header: h, Payload: append([]byte(nil), msg...)}
 			det := map[string]interface{}{"payload_class": class, "len": len(msg), "header": fmt.Sprintf("%+v", h)}
 			c.Count(1)
+			var fIntact func() string
+			f.Payload, fIntact = xport.Arena(f.Payload)
 			cf, err := wsflate.CompressFrame(f)
 			if err != nil {
 				c.Fail("frames/compress-error", "CompressFrame failed: "+err.Error(), det)
+				return
+			}
+			if w := fIntact(); w != "" {
+				c.Fail("frames/input-buffer", "CompressFrame: "+w, det)
 				return
 			}
 			want := h
@@ -481,9 +497,16 @@ func subFrames() mon.Sub {
 				c.Fail("frames/compress-zlib", "zlib does not inflate CompressFrame's payload to the original: "+oerr, det)
 				return
 			}
-			df, err := wsflate.DecompressFrame(cf)
+			cfa := cf
+			var cfIntact func() string
+			cfa.Payload, cfIntact = xport.Arena(cf.Payload)
+			df, err := wsflate.DecompressFrame(cfa)
 			if err != nil {
 				c.Fail("frames/decompress-error", "DecompressFrame failed on CompressFrame's output: "+err.Error(), det)
+				return
+			}
+			if w := cfIntact(); w != "" {
+				c.Fail("frames/input-buffer", "DecompressFrame: "+w, det)
 				return
 			}
 			if df.Header != h || !bytes.Equal(df.Payload, msg) {
